@@ -258,4 +258,102 @@ def progOrder (ph : Act → Nat) : List Ev → Bool
   | .restore a :: rest => ph a == 2 && progOrder (upd ph a 3) rest
   | .read a :: rest => ph a == 3 && progOrder (upd ph a 4) rest
 
+
+/-! ## the stream machine with the live copy (`Writer` forwarding)
+
+The same cell, but a `Writer` is the pair *(own buffer, live stream handed over by `Task.execute`)*, as in the
+code: `Writer.write` writes to the buffer and then to the live stream — which, in a nested execution, is the
+writer of the enclosing action.  `getlive a on` is `Stream._get_out_err`: with `on` (verbosity shows this channel)
+the execution gets whatever the cell holds at that moment as its live stream, else `None` (`null`). -/
+namespace Fwd
+
+inductive Stream | orig | null | writer (a : Act) (live : Stream)
+deriving DecidableEq, Repr
+
+inductive Ev
+  | getlive (a : Act) (on : Bool)
+  | save (a : Act) | set (a : Act) | write (a : Act) (n : Nat) | restore (a : Act) | read (a : Act)
+deriving DecidableEq, Repr
+
+structure St where
+  cell : Stream
+  live : Act → Stream                -- `out` argument of the execution (`null` = None)
+  saved : Act → Option Stream
+  buf : Act → List Tok
+  out : Act → Option (List Tok)
+  origLog : List Tok                 -- what reached the original stream (shown live, or leaked)
+  unbound : Bool
+
+def St.init : St := ⟨.orig, fun _ => .null, fun _ => none, fun _ => [], fun _ => none, [], false⟩
+
+/-- `stream.write(t)` -/
+def emit (t : Tok) : Stream → St → St
+  | .orig, s => { s with origLog := s.origLog ++ [t] }
+  | .null, s => s
+  | .writer a l, s => emit t l { s with buf := upd s.buf a (s.buf a ++ [t]) }
+
+def restoreTo (s : St) : Option Stream → St
+  | some x => { s with cell := x }
+  | none => { s with unbound := true }
+
+def step (s : St) : Ev → St
+  | .getlive a on => { s with live := upd s.live a (if on then s.cell else .null) }
+  | .save a => { s with saved := upd s.saved a (some s.cell) }
+  | .set a => { s with cell := .writer a (s.live a) }
+  | .write a n => emit (a, n) s.cell s
+  | .restore a => restoreTo s (s.saved a)
+  | .read a => { s with out := upd s.out a (some (s.buf a)) }
+
+def run (s : St) (evs : List Ev) : St := evs.foldl step s
+
+/-- the buffers a write to the stream reaches -/
+def bufsOf : Stream → List Act
+  | .orig => [] | .null => [] | .writer a l => a :: bufsOf l
+
+def reachesOrig : Stream → Bool
+  | .orig => true | .null => false | .writer _ l => reachesOrig l
+
+def writesOf (a : Act) : List Ev → List Tok
+  | [] => []
+  | .write b n :: rest => if b = a then (a, n) :: writesOf a rest else writesOf a rest
+  | _ :: rest => writesOf a rest
+
+def started : List Ev → List Act
+  | [] => []
+  | .save a :: rest => a :: started rest
+  | _ :: rest => started rest
+
+/-- no execution in the list is handed a live stream (verbosity hides this channel everywhere) -/
+def allOff : List Ev → Bool
+  | [] => true
+  | .getlive _ on :: rest => !on && allOff rest
+  | _ :: rest => allOff rest
+
+/-- the tokens of a buffer written by `c` itself -/
+def own (c : Act) (l : List Tok) : List Tok := l.filter (fun t => t.1 = c)
+
+inductive WN : Option Act → List Ev → Prop
+  | nil (o) : WN o []
+  | write (a n rest) : WN (some a) rest → WN (some a) (.write a n :: rest)
+  | exec (o b on body rest) : WN (some b) body → WN o rest →
+      WN o ([.getlive b on, .save b, .set b] ++ body ++ [.restore b, .read b] ++ rest)
+
+/-- scenario forests with a verbosity flag per execution -/
+inductive Forest
+  | nil
+  | write (n : Nat) (rest : Forest)
+  | exec (b : Act) (on : Bool) (body : Forest) (rest : Forest)
+  | kw (b : Act) (rest : Forest)      -- `_prepare_kwargs` of `b` raises: no step (`execSteps true b [] = []`)
+deriving Repr
+
+def flatten : Option Act → Forest → List Ev
+  | _, .nil => []
+  | some a, .write n rest => .write a n :: flatten (some a) rest
+  | none, .write _ rest => flatten none rest
+  | o, .exec b on body rest =>
+    [.getlive b on, .save b, .set b] ++ flatten (some b) body ++ [.restore b, .read b] ++ flatten o rest
+  | o, .kw _ rest => flatten o rest
+
+end Fwd
+
 end DoitModel.Act
